@@ -353,3 +353,45 @@ def is_versus_equality_on_none_and_booleans(flag, s):
     v = None if flag else s
     w = True if flag else None
     return (v is None) == flag and (w is True) == flag and (w is None) == (not flag) and (v == s or flag)
+
+
+# --- objects: aliasing, equality of attrs classes, enum members -------------------------------------------------------------
+from ahbicht.models.condition_nodes import ConditionFulfilledValue, EvaluatedFormatConstraint  # noqa: E402
+from ahbicht.models.enums import ModalMark  # noqa: E402
+from pyvc.contracts import Enum  # noqa: E402
+
+
+@lemma(dict(flag=Bool(), s=Str()), prop=["ENGINE"])
+def two_names_for_one_object_see_each_others_writes(flag, s):
+    a = EvaluatedFormatConstraint(format_constraint_fulfilled=flag, error_message=None)
+    b = a
+    c = EvaluatedFormatConstraint(format_constraint_fulfilled=flag, error_message=None)
+    same_before = a == c
+    b.error_message = s
+    return same_before and a.error_message == s and c.error_message is None and a is b and a is not c and a != c
+
+
+@lemma(dict(flag=Bool(), s=Str()), prop=["ENGINE"], canary=True)
+def canary_assignment_copies_the_object(flag, s):
+    a = EvaluatedFormatConstraint(format_constraint_fulfilled=flag, error_message=None)
+    b = a
+    b.error_message = s
+    return a.error_message is None
+
+
+@lemma(dict(x=Enum("ConditionFulfilledValue"), m=Enum("ModalMark")), prop=["ENGINE"])
+def enum_members_identity_equality_and_class(x, m):
+    return (x == ConditionFulfilledValue.NEUTRAL) == (x is ConditionFulfilledValue.NEUTRAL) \
+        and isinstance(x, ConditionFulfilledValue) and not isinstance(m, ConditionFulfilledValue) \
+        and (x in (ConditionFulfilledValue.FULFILLED, ConditionFulfilledValue.UNFULFILLED)) \
+        == (x is ConditionFulfilledValue.FULFILLED or x is ConditionFulfilledValue.UNFULFILLED) \
+        and (m is ModalMark.MUSS or m is ModalMark.SOLL or m is ModalMark.KANN)
+
+
+@lemma(dict(flag=Bool()), prop=["ENGINE"])
+def a_list_holds_references_not_copies(flag):
+    a = EvaluatedFormatConstraint(format_constraint_fulfilled=flag, error_message=None)
+    xs = [a, a]
+    xs[0].error_message = "changed"
+    ys = list(xs)
+    return xs[1].error_message == "changed" and ys[0] is a and len(ys) == 2
